@@ -33,6 +33,7 @@ type Ctx struct {
 	lemmas    []*Lemma
 	regexes   []*RegexDecl
 	encaps    []*EncapDecl
+	globalFacts []*GlobalFact
 	axioms    []*Lemma
 	axiomSyms map[string][]string
 	specFiles []*SpecFile
@@ -240,6 +241,7 @@ func (c *Ctx) loadSpecs(extra []string) error {
 		c.lemmas = append(c.lemmas, sf.Lemmas...)
 		c.regexes = append(c.regexes, sf.Regexes...)
 		c.encaps = append(c.encaps, sf.Encaps...)
+		c.globalFacts = append(c.globalFacts, sf.GFacts...)
 		c.axioms = append(c.axioms, sf.Axioms...)
 	}
 	for _, ax := range c.axioms {
@@ -360,6 +362,47 @@ func (c *Ctx) parseType1(s string) (types.Type, error) {
 	}
 	if s == "any" {
 		return types.Universe.Lookup("any").Type(), nil
+	}
+	if strings.HasSuffix(s, "]") && !strings.HasPrefix(s, "[") {
+		// generic instantiation: pkg.Name[T1, T2]
+		if lb := strings.Index(s, "["); lb > 0 {
+			gt, err := c.parseType(s[:lb])
+			if err != nil {
+				return nil, err
+			}
+			named, ok := gt.(*types.Named)
+			if !ok || named.TypeParams().Len() == 0 {
+				return nil, fmt.Errorf("%s is not a generic type", s[:lb])
+			}
+			var targs []types.Type
+			depth, start := 0, lb+1
+			for i := lb + 1; i < len(s); i++ {
+				switch s[i] {
+				case '[':
+					depth++
+				case ']':
+					if depth > 0 {
+						depth--
+						continue
+					}
+					fallthrough
+				case ',':
+					if depth == 0 {
+						ta, err := c.parseType(s[start:i])
+						if err != nil {
+							return nil, err
+						}
+						targs = append(targs, ta)
+						start = i + 1
+					}
+				}
+			}
+			inst, err := types.Instantiate(types.NewContext(), named, targs, false)
+			if err != nil {
+				return nil, err
+			}
+			return inst, nil
+		}
 	}
 	if i := strings.LastIndex(s, "."); i >= 0 {
 		pn, tn := s[:i], s[i+1:]
